@@ -244,38 +244,60 @@ func checkC08(w *World, r *Report) {
 
 	r.Rule("R08.12", "indentation is removed up to and including the column of the opening quote: the test that ends the stripping of a continuation line is `columns so far >= quote column` (reaching the column exactly ends it; what follows, a tab included, is kept verbatim)", 1)
 	r.guard("R08.12", func() {
-		fd, fp := w.FuncDecl(w.Func("parse", "trimLeadWS"))
-		trimLen := paramObj(fp, fd, 1)
-		var found *ast.IfStmt
-		var counter types.Object
-		ast.Inspect(fd.Body, func(n ast.Node) bool {
-			is, ok := n.(*ast.IfStmt)
-			if !ok {
-				return true
+		f := w.SSAFunc(w.Func("parse", "trimLeadWS"))
+		if f == nil || len(f.Params) != 2 {
+			panic(undecided{"parse.trimLeadWS"})
+		}
+		sym := NewSym(w)
+		trimLen := ssa.Value(f.Params[1])
+		// "columns so far < quote column"
+		classify := func(a *pcAtom) string {
+			if a.op == token.LSS && a.y == trimLen && a.x != nil {
+				return "below"
 			}
-			be, ok := ast.Unparen(is.Cond).(*ast.BinaryExpr)
-			if !ok {
-				return true
+			if a.op == token.LSS && a.x == trimLen && a.y != nil {
+				return "above" // quote column < columns
 			}
-			for _, pair := range [][2]ast.Expr{{be.X, be.Y}, {be.Y, be.X}} {
-				if objOfIdent(fp, pair[1]) == trimLen && objOfIdent(fp, pair[0]) != nil {
-					found = is
-					counter = objOfIdent(fp, pair[0])
+			return ""
+		}
+		loops := ssaLoops(f)
+		if len(loops) != 1 {
+			panic(undecided{"trimLeadWS: one loop over the line expected"})
+		}
+		l := loops[0]
+		why := ""
+		found := false
+		for _, ex := range searchExits(sym, f) {
+			if !ex.inLoop || len(ex.ret.Results) != 1 {
+				continue
+			}
+			if bo, ok := ex.ret.Results[0].(*ssa.BinOp); ok && bo.Op == token.ADD {
+				// the exit that re-aligns and returns the rest: only once the quote column is reached
+				found = true
+				hasTest := false
+				for _, a := range ex.cond.atoms() {
+					if classify(a) != "" {
+						hasTest = true
+					}
+				}
+				if !hasTest {
+					why = "the stripping stops without comparing the column count with the quote column"
+				} else if msg := pcImplies(ex.cond, classify, func(env map[string]bool) bool { return !env["below"] }); msg != "" {
+					why = "the stripping stops although the quote column is not reached (" + msg + ")"
 				}
 			}
-			return true
-		})
-		if found == nil {
+		}
+		if !found {
 			panic(undecided{"trimLeadWS: comparison of the column count with the quote column"})
 		}
-		ok, bad := true, ""
-		for _, c := range []struct{ ws, tl int64 }{{0, 3}, {2, 3}, {3, 3}, {4, 3}, {8, 3}, {8, 8}, {7, 8}} {
-			env := &guardEnv{p: fp, bind: map[types.Object]constant.Value{counter: constant.MakeInt64(c.ws), trimLen: constant.MakeInt64(c.tl)}}
-			if env.cond(found.Cond) != (c.ws >= c.tl) {
-				ok, bad = false, fmt.Sprintf("columns=%d, quote column=%d gives %v", c.ws, c.tl, !(c.ws >= c.tl))
+		// and it goes on only while the count is still below the quote column
+		for _, latch := range l.Latches {
+			cond := pcAndF(sym.PathCond(l.Header, latch, nil), sym.edgeCond(latch, l.Header, nil))
+			if msg := pcImplies(cond, classify, func(env map[string]bool) bool { return env["below"] }); msg != "" && why == "" {
+				why = "the stripping goes on although the quote column has been reached (" + msg + ")"
 			}
 		}
-		r.Check(ok, "R08.12", "trimLeadWS stops at the quote column", found.Pos(), "stop iff columns >= quote column", "the stripping of a continuation line does not stop exactly when the quote column is reached ("+bad+"): a character sitting right after the indentation (e.g. a tab) is consumed or rewritten")
+		r.Check(why == "", "R08.12", "trimLeadWS stops at the quote column", f.Pos(), "stop iff columns >= quote column", "the stripping of a continuation line does not stop exactly when the quote column is reached ("+why+"): a character sitting right after the indentation (e.g. a tab) is consumed or rewritten")
 	})
 
 	r.Rule("R08.13", "comments and blanks between the pieces of an argument never reach the argument grammar: raw tokens (which include separator items — a comment splits a run of blanks into two of them) are read only by the nextNonSpace / peekNonSpace helpers", 1)
